@@ -95,8 +95,29 @@ def _deny_core(rng, cfg, nt):
             'R': G.random_regfile(rng, cfg), 'spsr': G.random_spsrs(rng, cfg, valid=True)}
     ptrs = [c14.SW_DENY + d for d in (-32, -16, -12, -8, -4, -3, -2, -1, 0, 1, 4)] + [c14.SW_DENY + 0x7FD, c14.SW_DENY + 0x7FE, 8, 0x10, c14.SW_PRIV - 2, c14.SW_PRIV + 0x41, c14.SW_PRIV + 0xFE]
     words = []
+
+    def holder(pos, values, regs=range(8)):
+        # (the board re-aims every register before each tick as a function of the position: which register holds one of 'values' at tick 'pos')
+        for i in regs:
+            if ptrs[(pos * 7 + i * 5 + (pos >> 3)) % len(ptrs)] in values:
+                return i
+        return None
     while len(words) < nt:
         r_ = rng.random()
+        if thumb and r_ < 0.12:
+            # straddle: a BX to the last word in front of the no-access block, ONE 16-bit instruction there (half of the time a load multiple with its
+            # base in the list), then a 32-bit instruction whose second halfword lies inside the block: the fetch aborts half-way, in the step right
+            # after that instruction
+            pos = len(words)
+            rb = holder(pos, (c14.SW_DENY - 3,))
+            rm = holder(pos + 1, (c14.SW_DENY - 32, c14.SW_DENY - 16, c14.SW_DENY - 12, c14.SW_DENY - 8))
+            if rb is not None:
+                if rm is not None and rng.random() < 0.6:
+                    mid = 0xC800 | rm << 8 | 1 << rm | rng.choice([0, 1 << ((rm + 1) % 8), 1 << ((rm + 3) % 8)])
+                else:
+                    mid = rng.choice([0xBF00, 0x1C40, rng.randrange(0x5000, 0xA000), 0xB400 | rng.getrandbits(8), 0xBC00 | rng.getrandbits(8)])
+                words += [(0x4700 | rb << 3) << 16 | 0xBF00, mid << 16 | 0xBF00, rng.choice([0xF1000000, 0xF8D00000, 0xEA4F0000, 0xF3AF8000]) | rng.getrandbits(12)]
+                continue
         if r_ < 0.6:
             w = c14.ldst_word(rng, thumb)
             words.append(G._t16(w) if thumb else w)
@@ -280,7 +301,7 @@ def gen(item, rng, tier):
                 c['events'] = [e for e in c['events'] if e['tick'] < len(c['words'])]
             cores.append(c)
         style, acts = _schedule(rng, n, [len(c['words']) for c in cores])
-        return {'scenario': 'interleave', 'regime': regime, 'style': style, 'cores': cores, 'actions': acts}
+        return {'scenario': 'interleave', 'regime': regime, 'style': style, 'cores': cores, 'actions': acts, 'image_load': rng.random() < 0.4}
     if item['k'] == 'longhaul':
         return gen_longhaul(rng)
     if item['k'] == 'hashseed':
@@ -383,11 +404,24 @@ def _interleaved_part(arg):
     boards = [None] * n
     traces = [[] for _ in range(n)]
     ops = [[] for _ in range(n)]
+    images = {}
     for act, i in case['actions']:
         if act == 'c':
             if boards[i] is None:
                 boards[i] = _board_for(cores[i])
                 count('fault.instance-create')
+                if case.get('image_load'):
+                    # the bench's way of loading memory: every RAM receives its complete initial image through the device's public write(), and instances
+                    # whose devices start with the same contents are loaded from ONE image buffer (two cores booted from one image).  What a device does
+                    # with the caller's buffer is its own business; what its owner's neighbour later stores is not
+                    for mc in boards[i].cores[0].arm.mem.memories:
+                        a = M.flat(mc.mem)
+                        if type(mc.mem).__name__ == 'RAM' and isinstance(a, bytearray):
+                            key = (len(a), bytes(a))
+                            img = images.setdefault(key, bytearray(a))
+                            mc.mem.write(0, len(img), img)
+                            count('probe.image-loads')
+                    count('probe.shared-image-buffers', 0)
             continue
         b = boards[i]
         if b is None:
